@@ -407,7 +407,7 @@ def run(chk):
     chk.tlc("mc/MC_C14", "mc/MC_C14_%s.cfg" % t, workers=16, label="MC_C14 streams " + t)
     r = chk.tlc("mc/MC_C14", "mc/MC_C14_%s_emit.cfg" % t, workers=1, label="MC_C14 streams emit " + t)
     g = graphwalk.Graph(r.emitted)
-    gen_seeds = {"g1": 11, "g2": 11, "g3": 7}
+    gen_seeds = {"g1": 11, "g2": 11, "g3": 0}
     init = graphwalk.key(dict(glob=dict(root=["legacy", 0], used=[]),
                               gens={gid: dict(root=["gen", s], used=[]) for gid, s in gen_seeds.items()}))
     if init not in g.out:
